@@ -178,6 +178,10 @@ func jobsFor(prop, tier string) []Job {
 		for _, m := range []int{3, 4, 5, 8} {
 			add("family", fmt.Sprintf("btree%d.iterfamily.u%d", m, pick(48, 80)), 10, map[string]string{"c": "btree", "cmp": "nat", "check": "iter"}, map[string]int{"u": pick(48, 80), "m": m})
 		}
+		// wide inner nodes (>= 9 entries per node need order >= 10; after seeded change C08-15): orders 12, 16, 32
+		for _, m := range []int{12, 16, 32} {
+			add("family", fmt.Sprintf("btree%d.iterfamily.u%d", m, pick(100, 160)), 10, map[string]string{"c": "btree", "cmp": "nat", "check": "iter"}, map[string]int{"u": pick(100, 160), "m": m})
+		}
 		rewoundJobs("all", q, add)
 		treadmillJobs([]string{"rbt", "btree", "treeset", "binaryheap", "priorityqueue", "doublylinkedlist", "linkedhashmap", "linkedhashset", "treebidimap"}, add)
 		tallJobs(q, add)
@@ -605,11 +609,15 @@ func largeJobs(check string, q bool, cs []string, add func(kind, id string, w in
 // crosses every shrink point), the family's transition oracle on every step, the complete state oracle
 // at the multiples of 256 (c18.go largeStatesJob, check "state").  After the tenth wave of seeded changes.
 func xlJobs(q bool, cs []string, add func(kind, id string, w int, s map[string]string, p map[string]int)) {
-	n := 1300
-	if !q {
-		n = 4500
-	}
 	for _, c := range cs {
+		n := 1300
+		switch c { // these cost little per step: the 4096 thresholds are inside the quick bound as well
+		case "arraystack", "linkedliststack", "arrayqueue", "linkedlistqueue", "circularbuffer":
+			n = 4500
+		}
+		if !q {
+			n = 4500
+		}
 		p := map[string]int{"n": n, "deep": 1, "every": 256}
 		if c == "circularbuffer" {
 			p["cap"] = n
